@@ -796,6 +796,11 @@ def transcripts(chk, rng, broken):
             gens = rng.between(3, 8) if quick else rng.between(4, 20)
             inds = rng.between(10, 30) if quick else rng.between(10, 60)
             params = gen_params(rng, cfg, inds, gens)
+            do_stall = seen_cfg.get(cfg, 0) < stall_cfgs.get(cfg, 0)
+            seen_cfg[cfg] = seen_cfg.get(cfg, 0) + 1
+            if do_stall:                  # generations must follow the stall: no early stop
+                params.pop("stuck", None)
+                params.pop("thr", None)
             key = (cfg, seed, gens, inds, params_token(params))
             with_logs = rng.chance(0.3)
             if with_logs:
@@ -829,14 +834,12 @@ def transcripts(chk, rng, broken):
                 chains.append(chain)
                 ncold += 1
             # (3) timing perturbation
-            k = seen_cfg.get(cfg, 0)
-            seen_cfg[cfg] = k + 1
-            if k < stall_cfgs.get(cfg, 0):
+            if do_stall:
                 n = rng.between(0, max(1, gens - 1))
                 chains.append([mk("plain", exe, 0, "stall-cb:%d:%d" % (n, STALL_MS), {}, "stalled")])
                 nstall += 1
                 if cfg in REPEATABLE and (not quick or cfg == "ga-alps"):
-                    m = inds + rng.between(1, inds)
+                    m = rng.between(1, max(2, inds // 2))
                     chains.append([mk("plain", exe, 0, "stall-eval:%d:%d" % (m, STALL_MS), {}, "stalled")])
                     nstall += 1
 
@@ -883,6 +886,7 @@ def transcripts(chk, rng, broken):
         return {"steps": steps, "compare": [ia, len(steps) - 1]}
 
     ngen = nwarm_loaded = 0
+    neffective = [0]
     for key, procs in groups.items():
         cfg = key[0]
         live = []
@@ -899,11 +903,13 @@ def transcripts(chk, rng, broken):
                     broken.append("warm execution `%s` did not find the serialization file of the previous one (%s)"
                                   % (p.describe(), (p.err or "")[-200:]))
             if p.rc == 0 and "STALL-NOT-REACHED" in p.out:
-                broken.append("timing perturbation did not happen in `%s` (stall point beyond the end of the run)"
-                              % p.describe())
+                chk.notes.append("timing perturbation did not happen in `%s` (stall point beyond the end of the run)"
+                                 % p.describe())
+                chk.count("stall-not-reached")
                 p.out = p.out.replace("STALL-NOT-REACHED\n", "")
-            if p.role == "stalled":
+            elif p.role == "stalled" and p.rc == 0:
                 chk.count("stalled_process:" + cfg)
+                neffective[0] += 1
             live.append(p)
         if not live:
             continue
@@ -958,7 +964,10 @@ def transcripts(chk, rng, broken):
                                     "clause": {"stalled": "timing", "warm": "warm-cache", "warm-2": "warm-cache",
                                                "cold": "serialization-file"}.get(p.role, "two-processes")})
                 break
-    chk.cov["timing_perturbation"] = {"stalled_processes": nstall, "stall_ms": STALL_MS,
+    if nstall and not neffective[0]:
+        broken.append("no timing perturbation took place (%d stalled processes planned, none reached its stall point)"
+                      % nstall)
+    chk.cov["timing_perturbation"] = {"stalled_processes": nstall, "effective": neffective[0], "stall_ms": STALL_MS,
                                       "configurations": sorted(stall_cfgs)}
     chk.cov["cold_warm"] = {"chains": ncold, "warm_executions_that_loaded_the_previous_cache": nwarm_loaded}
     chk.cov["whole_runs"] = {"configurations": CONFIGS, "processes": sum(len(c) for c in chains),
